@@ -868,6 +868,41 @@ func c17R10(c *Ctx) {
 		}
 	}
 	walk(re)
+	// what Parse hands out are the groups themselves: Essence, Supertype and Subtype of the value it
+	// returns are matches[1], [2] and [3] of the same match, with no string operation in between
+	groupOf := map[string]int64{"Essence": 1, "Supertype": 2, "Subtype": 3}
+	seenField := map[string]bool{}
+	eachInstr(fn, func(_ *ssa.BasicBlock, _ int, in ssa.Instruction) {
+		st, ok := in.(*ssa.Store)
+		if !ok {
+			return
+		}
+		fa, ok := st.Addr.(*ssa.FieldAddr)
+		if !ok || !isNamed(fa.X.Type(), "servitor/mime", "MediaType") {
+			return
+		}
+		name := fieldOf(fa).Name()
+		g, known := groupOf[name]
+		if !known {
+			return
+		}
+		seenField[name] = true
+		okVal := false
+		if ld, ok := unwrapLoad(st.Val).(*ssa.UnOp); ok && ld.Op == token.MUL {
+			if ia, ok := ld.X.(*ssa.IndexAddr); ok {
+				if k, isK := constInt(ia.Index); isK && k == g {
+					okVal = true
+				}
+			}
+		}
+		c.check(okVal, fname+"/field:"+name, P.InstrPos(in), fname, fmt.Sprintf("%s is group %d of the match", name, g),
+			fmt.Sprintf("%s of a parsed media type is not group %d of the match as it stands: the parts no longer add up to the type that was declared (a `+suffix` cut off, a case changed, blanks trimmed), so what %%subtype and %%mimetype hand to the media hook, and what the renderers dispatch on, disagree", name, g))
+	})
+	for _, name := range []string{"Essence", "Supertype", "Subtype"} {
+		if !seenField[name] {
+			c.bad(fname+"/field:"+name, P.InstrPos(at), fname, "mime.Parse does not fill "+name+" of the value it returns")
+		}
+	}
 	c.check(n == 2, fname+"/two-names", P.InstrPos(at), fname, "supertype and subtype are each one group over a character class", fmt.Sprintf("the pattern has %d name groups over a character class where two (supertype, subtype) are expected", n))
 }
 
